@@ -1,0 +1,16 @@
+//go:build verif
+
+// Contracts for package httpapi, checked by /verif (govc). Comments only.
+package httpapi
+
+// ---- split assignment (C16): the single split "only" goes to the first source runner and to
+// no other, resuming from the last non-empty checkpointed split state.
+//@ func SourceSplitter.Start
+//@   property C16
+//@   nosafety
+//@   atcall AssignSplits: len(s.sourceRunnerIDs) > 0 ==> len(arg0[s.sourceRunnerIDs[0]]) == 1 && arg0[s.sourceRunnerIDs[0]][0] != nil &&
+//@          arg0[s.sourceRunnerIDs[0]][0].SplitId == "only" && same(arg0[s.sourceRunnerIDs[0]][0].Cursor, startingCursor)
+//@   atcall AssignSplits: forall(func(r string) bool { return has(arg0, r) ==> len(s.sourceRunnerIDs) > 0 && r == s.sourceRunnerIDs[0] })
+//@   loop 0:
+//@     invariant len(startingCursor) == 0 ==> forall(0, idx_, func(j int) bool { return len(coll_[j]) == 0 })
+//@     invariant len(startingCursor) != 0 ==> exists(0, idx_, idx_-1, func(j int) bool { return same(coll_[j], startingCursor) && forall(j+1, idx_, func(k int) bool { return len(coll_[k]) == 0 }) })
